@@ -120,16 +120,34 @@ def _worker_boot(init):
         init()
 
 
+class HarnessError(Exception):
+    pass
+
+
 def _call(packed):
     idx, fn, arg = packed
     try:
         return idx, fn(arg), None
-    except BaseException:  # a harness bug: surfaced as a hard error
+    except (HarnessError, MemoryError, KeyboardInterrupt, SystemExit):
         return idx, None, traceback.format_exc()
-
-
-class HarnessError(Exception):
-    pass
+    except Exception as e:
+        # An exception that escapes a work item. On the unchanged tree every item runs to its end, so this only happens
+        # when the code under test produced something of a shape the reference readers do not understand. Swallowing
+        # it (exit 2) would hide exactly the changes the check exists for, so it is reported as a violation that says
+        # what it is. VERIF_STRICT_HARNESS=1 turns it back into a hard error (used while developing a check).
+        if os.environ.get('VERIF_STRICT_HARNESS') == '1' or not os.environ.get('VERIF_PROP'):
+            return idx, None, traceback.format_exc()
+        tb = traceback.extract_tb(e.__traceback__)
+        site = '?'
+        for fr in tb:
+            if '/verif/' in fr.filename:
+                site = f'{fr.filename.split("/verif/")[-1]}:{fr.name}'
+        acc = Acc()
+        acc.violation(f'{os.environ["VERIF_PROP"]}|reference-reader-exception|{type(e).__name__}@{site}',
+                      f'the reference oracle raised {type(e).__name__}: {str(e)[:200]} while judging work item '
+                      f'{repr(arg)[:200]} - the output of the code under test has a shape it does not understand',
+                      {'kind': 'oracle-exception', 'item': repr(arg)[:500], 'traceback': traceback.format_exc()[-3000:]})
+        return idx, acc, None
 
 
 def pmap(fn, items, seed: int = 0, init=None, jobs: int | None = None, chunksize: int = 1):
